@@ -129,7 +129,11 @@ GlobalLine(q, t, wMax, st, w, i, init) ==
     Line("global", "IsVarDeclaration",
          (IF GQual[q].w > 0 THEN <<L(GQual[q].x, GQual[q].w)>> ELSE <<>>) \o <<TyItem(t)>>
          \o AlignTabs(wMax, GQual[q].w + Types[t].w) \o Stars(st) \o <<Slot("g", w, i)>>
-         \o (IF init THEN <<L(" = ", 3), N2>> ELSE <<>>) \o <<L(";", 1)>>)
+         \o (CASE init = 1 -> <<L(" = ", 3), N2>>
+               [] init = 2 -> <<L("[", 1), N1, L("]", 1)>>
+               [] init = 3 -> <<L("[sizeof(", 8), TY3, L(") * ", 4), N1, L("]", 1)>>      \* parentheses inside the array size
+               [] init = 4 -> <<L("[(", 2), N1, L(" + ", 3), N1, L(")]", 2)>>
+               [] OTHER -> <<>>) \o <<L(";", 1)>>)
 ProtoLine(static, t, wMax, st, w, i, params) ==
     Line("proto", "IsFuncPrototype",
          (IF static THEN <<L("static ", 7)>> ELSE <<>>) \o <<TyItem(t)>>
@@ -156,7 +160,7 @@ Prologue ==
           LET defs == [i \in 1..ndef |-> DefineLine(i, dws[i], dvs[i])] IN
         \E ng \in (IF Sim THEN Pick(0..3) ELSE {0}), np \in (IF Sim THEN Pick(0..3) ELSE {0}) :
         \E gq \in Pick([1..ng -> 1..4]), gt \in Pick([1..ng -> TypeIdx]), gs \in Pick([1..ng -> 0..1]), gw \in Pick([1..ng -> {3, 6}]),
-           gi \in Pick([1..ng -> BOOLEAN]) :
+           gi \in Pick([1..ng -> 0..4]) :
         \E pss \in Pick([1..np -> BOOLEAN]), pt \in Pick([1..np -> TypeIdx]), pst \in Pick([1..np -> 0..1]), pw \in Pick([1..np -> {4, 7}]),
            ppl \in Pick([1..np -> ParamLists]) :
             LET gl == Globals(ng, gq, gt, gs, gw, gi)
